@@ -22,7 +22,7 @@ ASSUMPTIONS = ["no particular order is required, only coherence with =="]
 def plan(tier, seed):
     thorough = tier == "thorough"
     n = 16 if thorough else 8
-    return [{"variant": "c" if s % 2 else "py", "part": "families", "shard": s, "nshards": n, "params": {"families": 220 if thorough else 40}} for s in range(n)]
+    return [{"variant": "c" if s % 2 else "py", "part": "families", "shard": s, "nshards": n, "params": {"families": 1500 if thorough else 40}} for s in range(n)]
 
 
 def model_key(u):
